@@ -63,3 +63,106 @@ Theorem C19_tensor_contract_rejects_partial : forall s i1 i2, 0 <= i1 -> 0 <= i2
   pre_tensor_contract s i1 i2 = false -> guard_tensor_contract s i1 i2 = Err.
 Proof. exact tensor_contract_rejects_partial. Qed.
 Print Assumptions C19_tensor_contract_rejects_partial.
+
+(* ---- requests shared by several classes ---- *)
+(* "two operands of the same shape": sptensor + - * & | ==, ktensor innerprod / +, ttensor innerprod, tenmat +, sumtensor + / innerprod *)
+Theorem C19_same_shape : forall s u, guard_same_shape s u = decide (pre_same_shape s u).
+Proof. exact same_shape_decides. Qed.
+Print Assumptions C19_same_shape.
+(* "sorted(order) == range(N)" (sptensor/ktensor/ttensor.permute, dimorder of the algorithms) is exactly "order is a permutation" *)
+Theorem C19_sorted_perm : forall s order, guard_sorted_perm s order = decide (pre_perm s order).
+Proof. exact sorted_perm_decides. Qed.
+Print Assumptions C19_sorted_perm.
+Example C19_sorted_perm_ex : guard_sorted_perm [2; 3; 4] [2; 0; 1] = Ok tt /\ guard_sorted_perm [2; 3; 4] [1; 1; 0] = Err /\ guard_sorted_perm [2; 3; 4] [-1; 0; 1] = Err.
+Proof. repeat split; reflexivity. Qed.
+
+(* ---- sptensor ---- *)
+Theorem C19_sptensor_innerprod_refuted : ~ sptensor_innerprod_stmt.
+Proof. exact sptensor_innerprod_refuted. Qed.
+Print Assumptions C19_sptensor_innerprod_refuted.
+Theorem C19_sptensor_innerprod_partial : forall s u, guard_sptensor_innerprod s false u = decide (pre_sptensor_innerprod s false u).
+Proof. exact sptensor_innerprod_partial. Qed.
+Print Assumptions C19_sptensor_innerprod_partial.
+
+(* ---- ktensor ---- *)
+Theorem C19_ktensor_ctor : forall ms w, guard_ktensor_ctor ms w = decide (pre_ktensor_ctor ms w).
+Proof. exact ktensor_ctor_decides. Qed.
+Print Assumptions C19_ktensor_ctor.
+Theorem C19_ktensor_arrange_refuted : ~ ktensor_arrange_stmt.
+Proof. exact ktensor_arrange_refuted. Qed.
+Print Assumptions C19_ktensor_arrange_refuted.
+Theorem C19_ktensor_arrange_partial : forall R p, (forall x, In x p -> 0 <= x) -> nodupb p = true ->
+  guard_ktensor_arrange R p = decide (pre_ktensor_arrange R p).
+Proof. exact ktensor_arrange_partial. Qed.
+Print Assumptions C19_ktensor_arrange_partial.
+Theorem C19_ktensor_extract : forall R idx, guard_ktensor_extract R idx = decide (pre_ktensor_extract R idx).
+Proof. exact ktensor_extract_decides. Qed.
+Print Assumptions C19_ktensor_extract.
+
+(* ---- ttensor ---- *)
+Theorem C19_ttensor_ctor : forall core ms, guard_ttensor_ctor core ms = decide (pre_ttensor_ctor core ms).
+Proof. exact ttensor_ctor_decides. Qed.
+Print Assumptions C19_ttensor_ctor.
+Example C19_ttensor_ctor_ex : guard_ttensor_ctor [2; 3] [(4, 2); (5, 3)] = Ok tt /\ guard_ttensor_ctor [2; 3] [(4, 3); (5, 2)] = Err.
+Proof. split; reflexivity. Qed.
+
+(* ---- sptenmat (A-44) ---- *)
+Theorem C19_sptenmat_ctor_refuted : ~ sptenmat_ctor_stmt.
+Proof. exact sptenmat_ctor_refuted. Qed.
+Print Assumptions C19_sptenmat_ctor_refuted.
+Theorem C19_sptenmat_ctor_partial : forall mr mc rd cd ts,
+  mr <> zprod (pickz ts rd) -> mc <> zprod (pickz ts cd) ->
+  guard_sptenmat_ctor mr mc rd cd ts = decide (pre_sptenmat_ctor mr mc rd cd ts).
+Proof. exact sptenmat_ctor_partial. Qed.
+Print Assumptions C19_sptenmat_ctor_partial.
+
+(* ---- tenmat product, sumtensor constructor, khatrirao, import_data ---- *)
+Theorem C19_tenmat_mul : forall a b, guard_tenmat_mul a b = decide (pre_tenmat_mul a b).
+Proof. exact tenmat_mul_decides. Qed.
+Print Assumptions C19_tenmat_mul.
+Theorem C19_sumtensor_ctor : forall l, guard_all_same_shape l = decide (pre_all_same_shape l).
+Proof. exact all_same_shape_decides. Qed.
+Print Assumptions C19_sumtensor_ctor.
+Theorem C19_khatrirao : forall ms, guard_khatrirao ms = decide (pre_khatrirao ms).
+Proof. exact khatrirao_decides. Qed.
+Print Assumptions C19_khatrirao.
+Theorem C19_import : forall t n k, guard_import t n k = decide (pre_import t n k).
+Proof. exact import_decides. Qed.
+Print Assumptions C19_import.
+
+(* ---- mode selection through the generated tt_dimscheck (A-42) ---- *)
+Theorem C19_dimscheck_refuted : ~ dimscheck_stmt.
+Proof. exact dimscheck_refuted. Qed.
+Print Assumptions C19_dimscheck_refuted.
+Theorem C19_tensor_ttv_refuted : ~ tensor_ttv_stmt.
+Proof. exact tensor_ttv_refuted. Qed.
+Print Assumptions C19_tensor_ttv_refuted.
+Theorem C19_tensor_ttm_refuted : ~ tensor_ttm_stmt.
+Proof. exact tensor_ttm_refuted. Qed.
+Print Assumptions C19_tensor_ttm_refuted.
+Theorem C19_tensor_ttv_rejects_both : forall s vlens d e, guard_tensor_ttv s vlens (Some d) (Some e) = Err.
+Proof. exact tensor_ttv_rejects_both. Qed.
+Print Assumptions C19_tensor_ttv_rejects_both.
+Theorem C19_tensor_ttv_rejects_negative : forall s vlens d x, In x d -> x < 0 -> guard_tensor_ttv s vlens (Some d) None = Err.
+Proof. exact tensor_ttv_rejects_negative. Qed.
+Print Assumptions C19_tensor_ttv_rejects_negative.
+Theorem C19_tensor_ttv_rejects_exclude_range : forall s vlens e x,
+  In x e -> ~ (0 <= x < ndim s) -> guard_tensor_ttv s vlens None (Some e) = Err.
+Proof. exact tensor_ttv_rejects_exclude_range. Qed.
+Print Assumptions C19_tensor_ttv_rejects_exclude_range.
+Theorem C19_tensor_ttv_rejects_count : forall s vlens d, (forall x, In x d -> 0 <= x) ->
+  (zlen vlens > ndim s \/ (zlen vlens <> ndim s /\ zlen vlens <> zlen d)) -> guard_tensor_ttv s vlens (Some d) None = Err.
+Proof. exact tensor_ttv_rejects_count. Qed.
+Print Assumptions C19_tensor_ttv_rejects_count.
+Theorem C19_tensor_ttm_rejects_both : forall s ms d e tr, guard_tensor_ttm s ms (Some d) (Some e) tr = Err.
+Proof. exact tensor_ttm_rejects_both. Qed.
+Print Assumptions C19_tensor_ttm_rejects_both.
+Theorem C19_tensor_ttm_rejects_negative : forall s ms d x tr, In x d -> x < 0 -> guard_tensor_ttm s ms (Some d) None tr = Err.
+Proof. exact tensor_ttm_rejects_negative. Qed.
+Print Assumptions C19_tensor_ttm_rejects_negative.
+Theorem C19_tensor_ttm_rejects_count : forall s ms d tr, (forall x, In x d -> 0 <= x) ->
+  (zlen ms > ndim s \/ (zlen ms <> ndim s /\ zlen ms <> zlen d)) -> guard_tensor_ttm s ms (Some d) None tr = Err.
+Proof. exact tensor_ttm_rejects_count. Qed.
+Print Assumptions C19_tensor_ttm_rejects_count.
+Example C19_tensor_ttv_ex : guard_tensor_ttv [2; 3; 4] [4; 2] (Some [2; 0]) None = Ok tt /\ guard_tensor_ttv [2; 3; 4] [2; 4] (Some [2; 0]) None = Err.
+Proof. split; reflexivity. Qed.
